@@ -370,6 +370,8 @@ def shrink(mod, case, pred, budget=60):
 
 
 def standard_check(mod, tier, seed):
+    """Main batch of `mod` plus any batches listed in mod.EXTRA (objects with the same interface; they share the
+    property id, the theorems and the evidence file)."""
     rep = Report(mod.PID, tier, seed)
     rep.assumptions = list(getattr(mod, 'ASSUMPTIONS', []))
     rep.coverage['trusted_base'] = list(getattr(mod, 'TRUSTED_BASE', [])) + COMMON_TRUSTED
@@ -380,13 +382,28 @@ def standard_check(mod, tier, seed):
         proof = {'obligations': 1, 'discharged': 0, 'theorems': [], 'axioms': [], 'checker_cmd': 'make -C coq',
                  'error': str(e)}
     broken = [t for t in proof['theorems'] if t[1] != 'closed'] or ([('build', proof['error'])] if proof.get('error') else [])
+    batches = [mod] + list(getattr(mod, 'EXTRA_BATCHES', []))
+    for k, b in enumerate(batches):
+        if not hasattr(b, 'PID'):
+            b.PID = mod.PID
+        process_batch(b, rep, tier, seed + k, broken if k == 0 else [], label=getattr(b, 'LABEL', 'main' if k == 0 else 'extra%d' % k))
+    return rep.finish(proof)
+
+
+def _acc(rep, key, n):
+    rep.coverage[key] = rep.coverage.get(key, 0) + n
+
+
+def process_batch(mod, rep, tier, seed, broken, label='main'):
     rng = random.Random(seed)
-    corpus = load_corpus(mod.PID)
+    corpus = load_corpus(mod.PID) if label == 'main' else []
     gen = mod.generate(rng, tier, rep)
     cases = corpus + gen
+    if not cases:
+        return
     t0 = time.time()
     obs, codes = evaluate(mod, cases, rep)
-    rep.notes.append('impl+coq evaluation: %.1fs' % (time.time() - t0))
+    rep.notes.append('%s batch: %d cases, impl+coq evaluation %.1fs' % (label, len(cases), time.time() - t0))
     seen = set()
     nontrivial = 0
     for c in cases:
@@ -396,21 +413,21 @@ def standard_check(mod, tier, seed):
         seen.add(h)
         if mod.nontrivial(c):
             nontrivial += 1
-    rep.coverage.update({
-        'evaluations': len(cases), 'distinct_nontrivial': nontrivial, 'rule': mod.RULE,
-        'samples': pick_samples(mod, cases, obs),
-        'corpus_cases': len(corpus),
-        'traces_validated_against_impl': len(cases),
-    })
+    _acc(rep, 'evaluations', len(cases))
+    _acc(rep, 'distinct_nontrivial', nontrivial)
+    _acc(rep, 'corpus_cases', len(corpus))
+    _acc(rep, 'traces_validated_against_impl', len(cases))
+    rep.coverage['rule'] = (rep.coverage.get('rule', '') + (' || ' if rep.coverage.get('rule') else '') + mod.RULE)
+    rep.coverage.setdefault('samples', []).extend(pick_samples(mod, cases, obs))
     if getattr(mod, 'EXHAUSTIVE', {}).get(tier):
         rep.coverage['exhaustive'] = True
         rep.coverage['exhaustive_space'] = mod.EXHAUSTIVE[tier]
     mism = [i for i, c in codes.items() if c & 1]
     pfail = [i for i, c in codes.items() if c & 2]
     outside = [i for i, c in codes.items() if c & 4]
-    rep.coverage['model_impl_mismatches'] = len(mism)
-    rep.coverage['property_failures_on_impl'] = len(pfail)
-    rep.coverage['cases_outside_theorem_hypotheses'] = len(outside)
+    _acc(rep, 'model_impl_mismatches', len(mism))
+    _acc(rep, 'property_failures_on_impl', len(pfail))
+    _acc(rep, 'cases_outside_theorem_hypotheses', len(outside))
     findings = open_findings(mod.PID)
     unexplained = []
     for i in pfail:
@@ -423,20 +440,21 @@ def standard_check(mod, tier, seed):
         i = unexplained[0]
         small = shrink(mod, cases[i], lambda code: bool(code & 2) and not (code & ~codes[i] & 0xfff8))
         o2, c2 = evaluate(mod, [small])
-        rep.violation({'property': mod.PID, 'kind': 'property predicate false on implementation observation',
-                       'case': small, 'observation': o2[0], 'code': c2.get(0, 0),
+        view = getattr(mod, 'sample_view', lambda c, o: dict(case=c, observation=o))(small, o2[0])
+        rep.violation({'property': mod.PID, 'batch': label, 'kind': 'property predicate false on implementation observation',
+                       'case': small, 'observation': view.get('observation'), 'code': c2.get(0, 0),
                        'original_case': cases[i], 'how_to_replay': './check %s --replay <this file>' % mod.PID,
                        'other_failing_cases': len(unexplained) - 1})
     elif mism or broken:
-        # correspondence or proof obligation broke, property not yet seen to fail: search
         found = None
         what = {}
         if mism:
             i = mism[0]
             small = shrink(mod, cases[i], lambda code: bool(code & 1))
             o2, c2 = evaluate(mod, [small])
-            what = {'correspondence': mod.CHK + '.check (model vs implementation)', 'case': small,
-                    'observation': o2[0], 'code': c2.get(0, 0), 'mismatching_cases': len(mism)}
+            view = getattr(mod, 'sample_view', lambda c, o: dict(case=c, observation=o))(small, o2[0])
+            what = {'correspondence': mod.CHK + '.' + getattr(mod, 'CHECK_FN', 'check') + ' (model vs implementation)', 'case': small,
+                    'observation': view.get('observation'), 'code': c2.get(0, 0), 'mismatching_cases': len(mism)}
             srng = random.Random(seed + 7919)
             neigh = []
             if hasattr(mod, 'neighbours'):
@@ -449,17 +467,17 @@ def standard_check(mod, tier, seed):
                     if code & 2 and not (hasattr(mod, 'classify') and mod.classify(neigh[j], o3[j], code, findings)):
                         small = shrink(mod, neigh[j], lambda cd: bool(cd & 2))
                         o4, c4 = evaluate(mod, [small])
-                        found = {'case': small, 'observation': o4[0], 'code': c4.get(0, 0)}
+                        view = getattr(mod, 'sample_view', lambda c, o: dict(case=c, observation=o))(small, o4[0])
+                        found = {'case': small, 'observation': view.get('observation'), 'code': c4.get(0, 0)}
                         break
-                rep.coverage['search_cases'] = len(neigh)
+                _acc(rep, 'search_cases', len(neigh))
         if found:
-            found.update({'property': mod.PID, 'kind': 'failing input found by search after correspondence broke',
+            found.update({'property': mod.PID, 'batch': label, 'kind': 'failing input found by search after correspondence broke',
                           'broken': what})
             rep.violation(found)
         else:
-            rep.violation({'property': mod.PID, 'kind': 'property no longer shown to hold',
+            rep.violation({'property': mod.PID, 'batch': label, 'kind': 'property no longer shown to hold',
                            'broken_theorems': broken, 'broken_correspondence': what}, no_input=True)
-    return rep.finish(proof)
 
 
 def pick_samples(mod, cases, obs, k=2):
@@ -485,6 +503,12 @@ def replay(mod, path):
         print(json.dumps(obj, indent=1))
         return 0
     coq_build()
+    label = obj.get('batch', 'main')
+    for b in getattr(mod, 'EXTRA_BATCHES', []):
+        if getattr(b, 'LABEL', None) == label:
+            if not hasattr(b, 'PID'):
+                b.PID = mod.PID
+            mod = b
     obs, codes = evaluate(mod, [case])
     print(json.dumps({'case': case, 'observation': obs[0], 'code': codes.get(0, 0),
                       'meaning': 'bit1=model/impl mismatch bit2=property predicate false bit4=outside hypotheses'}, indent=1))
